@@ -45,6 +45,7 @@ func runCrashWorkload(c *CaseCtx, o crashOpts) {
 		cr.MaxImg = o.ImgCap
 	}
 	cr.ContinueMax = tier(c.Tier, 10, 25)
+	cr.ImmediateMax, cr.Cfg, cr.U = tier(c.Tier, 6, 12), cfg, u
 	cr.Mon.Install()
 	defer cr.Mon.Uninstall()
 	c.Log("cfg %s buckets=%v power=%v", cfg, u.Buckets, o.Power)
